@@ -215,7 +215,7 @@ impl Property for C14 {
         "C14"
     }
     fn rule(&self) -> String {
-        "templates: programs of the generator (all features, chain-specific directives in 70% of them) lowered by the real front end, with type-correct but hostile arguments (integers from the i128 boundary set, byte strings of length 0/1/27..33/56/57/64 where 28 or 32 are expected, addresses of every Shelley kind, Byron-like, pointer, wrong-length and empty ones, UTxO references with short ids and index u32::MAX), stores that are empty, huge, hold negative amounts, odd class names and datums of any shape, protocol parameters with 0 / u64::MAX coefficients and missing cost models, fresh and used compiler instances; wallets: one input query (by address and / or token) against wallets with 0..120 full matches and 0..60 partial ones (both sides of the selection window of 50 and of the 10 references an error message lists); trees: random well-formed IR trees (every Expression / Param / op variant, depth <= 6) a client could send, with arguments for their parameters. Every public back-end entry point is driven (find_params, find_queries, is_constant, apply_args, apply_fees, Node::apply(compiler), reduce, apply_inputs, compile, inputs::resolve, resolve_tx). Oracle: each call returns; a panic (hook: message, file, first in-repo function), an abort (worker signal) or a reproducible watchdog overrun is a violation. Non-trivial: every case; distinct = distinct (IR, arguments).".into()
+        "templates: programs of the generator (all features, chain-specific directives in 70% of them) lowered by the real front end, with type-correct but hostile arguments (integers from the i128 boundary set, byte strings of length 0/1/27..33/56/57/64 where 28 or 32 are expected, addresses of every Shelley kind, Byron-like, pointer, wrong-length and empty ones, UTxO references with short ids and index u32::MAX), stores that are empty, huge, hold negative amounts, odd class names and datums of any shape, protocol parameters with 0 / u64::MAX coefficients and missing cost models, fresh and used compiler instances; wallets: one input query (by address and / or token) against wallets with 0..120 full matches and 0..60 partial ones (both sides of the selection window of 50 and of the 10 references an error message lists); fee-loop: a payment template with change = source - quantity - fees, swept in steps of the fee coefficient across the amounts where the change crosses a CBOR width boundary (where the loop fee -> transaction -> fee has a late fixed point or none), with round budgets 0, 1, 2, 3, 10, 100; trees: random well-formed IR trees (every Expression / Param / op variant, depth <= 6) a client could send, with arguments for their parameters. Every public back-end entry point is driven (find_params, find_queries, is_constant, apply_args, apply_fees, Node::apply(compiler), reduce, apply_inputs, compile, inputs::resolve, resolve_tx). Oracle: each call returns; a panic (hook: message, file, first in-repo function), an abort (worker signal) or a reproducible watchdog overrun is a violation. Non-trivial: every case; distinct = distinct (IR, arguments).".into()
     }
     fn assumptions(&self) -> Vec<String> {
         vec![
@@ -228,23 +228,69 @@ impl Property for C14 {
     }
     fn phases(&self, tier: Tier) -> Vec<Phase> {
         match tier {
-            Tier::Quick => vec![Phase::new("templates", 6_000, Profile::Checked), Phase::new("trees", 12_000, Profile::Checked), Phase::new("wallets", 1_500, Profile::Checked)],
+            Tier::Quick => vec![Phase::new("templates", 6_000, Profile::Checked), Phase::new("trees", 12_000, Profile::Checked), Phase::new("wallets", 1_500, Profile::Checked), Phase::new("fee-loop", 1_500, Profile::Checked).budget(120_000)],
             Tier::Thorough => vec![
                 Phase::new("templates", 200_000, Profile::Checked),
                 Phase::new("trees", 400_000, Profile::Checked),
                 Phase::new("wallets", 60_000, Profile::Checked),
+                Phase::new("fee-loop", 60_000, Profile::Checked).budget(120_000),
                 Phase::new("templates-release", 100_000, Profile::Release),
                 Phase::new("trees-release", 200_000, Profile::Release),
             ],
         }
     }
     fn required_features(&self, _tier: Tier) -> Vec<String> {
-        ["stage/apply_args", "stage/reduce", "stage/compile", "stage/inputs::resolve", "stage/resolve_tx", "compile/ok", "compile/err", "resolve_tx/ok", "resolve_tx/err", "pparams/missing-cost-model"].iter().map(|s| s.to_string()).collect()
+        ["stage/apply_args", "stage/reduce", "stage/compile", "stage/inputs::resolve", "stage/resolve_tx", "compile/ok", "compile/err", "resolve_tx/ok", "resolve_tx/err", "pparams/missing-cost-model", "stage/fee-loop:resolve_tx", "fee-loop/ok"].iter().map(|s| s.to_string()).collect()
     }
     fn run_case(&self, ctx: &mut Ctx, phase: &str, idx: u64, rng: &mut Rng) {
         let pp = pparams(rng);
         if pp.cost_models.len() < 3 {
             ctx.count("pparams/missing-cost-model");
+        }
+        if phase == "fee-loop" {
+            // the loop fee -> transaction -> fee of resolve_tx on instances where it has no fixed point or a late
+            // one: the change (source - quantity - fees) next to a CBOR width boundary, every round budget
+            use crate::props::c05::{args as pay_args, program as pay_program, single_utxo_store, Shape, BOUNDARIES, COEFFS, CONSTS};
+            let extra = rng.usize(3);
+            let shape = Shape { fees_in_min: rng.bool(), change: rng.chance(5, 6), extra_outputs: extra, min_utxo_on: (0..extra).filter(|_| rng.chance(1, 3)).collect(), datum_on_change: rng.chance(1, 4), token_in_change: false, metadata: rng.chance(1, 6), gift: None, native_witness: false };
+            let pp = crate::env::PP { mainnet: rng.bool(), a: *rng.pick(&COEFFS), b: *rng.pick(&CONSTS), coins_per_utxo_byte: *rng.pick(&[4310u64, 1, 0, 34482]), extra_fees: *rng.pick(&[None, Some(0), Some(77_000)]), cost_models: vec![0, 1, 2], cost_salt: 0 };
+            let src = crate::gen::ast::print_program(&pay_program(&shape), crate::gen::ast::Layout::plain());
+            let Ok(lowered) = crate::pipeline::front(&src, "pay") else {
+                ctx.count("front/rejected");
+                return;
+            };
+            let q = rng.range(1_000_000, 3_000_000) as i128;
+            let limit = *rng.pick(&[0usize, 1, 2, 3, 10, 100]);
+            let run = |lovelace: i128| {
+                let store = crate::env::LoggedStore::new(single_utxo_store(lovelace, 0, 9));
+                let mut c = crate::env::compiler(&pp);
+                crate::panics::catch(|| pollster::block_on(tx3_resolver::resolve_tx(AnyTir::V1Beta0(lowered.clone()), &pay_args(q), &mut c, &store, limit)))
+            };
+            let fee_level = match run(900_000_000_000) {
+                Ok(Ok(c)) => c.fee as i128,
+                _ => 400_000,
+            };
+            let extras: i128 = (0..shape.extra_outputs).map(|k| 1_500_000 + k as i128).sum();
+            // a sweep of amounts around the boundary, finer than 4 * a (the width of the window in which the fee
+            // alternates between two values)
+            let boundary = *rng.pick(&BOUNDARIES);
+            let step = (pp.a as i128).max(1);
+            let start = rng.range(-12, 4) as i128;
+            for k in 0..12 {
+                let lovelace = q + extras + fee_level + boundary + (start + k) * step + rng.range(0, 3) as i128;
+                ctx.eval();
+                ctx.count("stage/fee-loop:resolve_tx");
+                match run(lovelace.max(1)) {
+                    Ok(Ok(_)) => ctx.count("fee-loop/ok"),
+                    Ok(Err(_)) => ctx.count("fee-loop/err"),
+                    Err(p) => ctx.violation(format!("panic:fee-loop:{}", p.signature()), json!({"source": src, "utxo_lovelace": lovelace.to_string(), "quantity": q.to_string(), "pparams": {"a": pp.a, "b": pp.b, "extra_fees": pp.extra_fees}, "max_optimize_rounds": limit, "panic": p.message})),
+                }
+            }
+            ctx.nontrivial(crate::rng::fnv64(format!("{src}{q}{boundary}{start}{limit}{:?}", (pp.a, pp.b, pp.extra_fees)).as_bytes()));
+            if idx % 97 == 0 {
+                ctx.sample(|| json!({"phase": phase, "source": src, "boundary": boundary.to_string(), "a": pp.a, "max_optimize_rounds": limit}));
+            }
+            return;
         }
         if phase == "wallets" {
             // one input query against a wide wallet: more UTxOs at the address (and more holders of the token)
